@@ -29,12 +29,18 @@ pub fn new_state(shards: usize) -> (State, ManualTime) {
 
 /// `perf`: build the state the way the real server does, from a PerformanceConfig (all defaults)
 pub fn new_state_via(shards: usize, perf: bool) -> (State, ManualTime) {
+    new_state_cfg(shards, perf, false)
+}
+
+/// `adaptive`: ShardConfig::with_adaptive() - the hot-key detector and the load balancer run beside the shards
+pub fn new_state_cfg(shards: usize, perf: bool, adaptive: bool) -> (State, ManualTime) {
     let t = ManualTime(Arc::new(AtomicU64::new(EPOCH_MS as u64)));
+    let scfg = |n: usize| if adaptive { ShardConfig::with_shards(n).with_adaptive() } else { ShardConfig::with_shards(n) };
     let s = if perf {
         let pc: redis_sim::production::PerformanceConfig = serde_json::from_str("{}").expect("default perf config");
-        ShardedActorState::with_perf_config_and_time_source(&pc, ShardConfig::with_shards(shards), t.clone())
+        ShardedActorState::with_perf_config_and_time_source(&pc, scfg(shards), t.clone())
     } else {
-        ShardedActorState::with_config_and_time_source(ShardConfig::with_shards(shards), t.clone())
+        ShardedActorState::with_config_and_time_source(scfg(shards), t.clone())
     };
     (s, t)
 }
@@ -277,7 +283,13 @@ async fn run(ops: &[Op], n: usize, mut seen: impl FnMut(&str, &Path, &str)) -> O
     // server does; the other half from a bare ShardConfig
     let perf = (ops.len() + n) % 2 == 0;
     let (one, t1) = new_state_via(1, perf);
-    let (many, tn) = new_state_via(n, perf);
+    // every fourth case runs the N-shard twin as an adaptive node (hot-key detection + load balancing actors): still
+    // "a server configured with N shards", so it has to answer like the plain one-shard twin
+    let adaptive = (ops.len() / 2 + n) % 4 == 0;
+    let (many, tn) = new_state_cfg(n, perf, adaptive);
+    if adaptive {
+        seen("(adaptive-node)", &Path::Generic, "cfg");
+    }
     let mut last_write: BTreeMap<Vec<u8>, Path> = BTreeMap::new();
     let mut shas: BTreeMap<usize, String> = BTreeMap::new();
     for (i, op) in ops.iter().enumerate() {
